@@ -14,10 +14,10 @@
    sfm_data).
    Trusted library behaviour: numpy-quaternion's from_rotation_matrix is the Section variable [from_matrix] with the
    contract [from_matrix_rot]; every theorem is generalised over it when the section closes. *)
-From Coq Require Import QArith ZArith Bool List String.
+From Coq Require Import QArith Qabs ZArith Bool List String.
 From KV Require Import Eqb Str AL.
 From KV.Model Require Import MQV MPose MOpenmvg.
-From KV.Proofs Require Import PQV POpenmvg.
+From KV.Proofs Require Import PQV POpenmvg POpenmvgKp.
 From KV.Gen Require Import Topenmvg.
 Import ListNotations.
 Local Open Scope string_scope.
@@ -103,6 +103,46 @@ Theorem C14_intrinsics_maps_inverse : forall (layout_v2 : bool) (c : camera), re
 Proof. exact intrinsics_roundtrip. Qed.
 Print Assumptions C14_intrinsics_maps_inverse.
 
+(* --- the keypoints themselves (regions .feat files; the feature ids of observations and matches index their rows):
+       for EVERY list of keypoints of a SIFT-like type (at least 4 columns; any number of rows, none and one included)
+       the exported file is accepted by the importer and holds the same number of rows, in the same order, each
+       with the first four columns (x, y, scale, orientation) to half a unit of the fifth decimal *)
+Theorem C14_same_keypoint_rows : forall rows : kprows, feat_ok rows = true ->
+  exists rows', import_feat (export_feat rows) = Some rows' /\
+    Forall2 (fun r' r => Forall2 (fun x' x => Qabs (x' - x) <= 1 # 200000) r' (firstn 4 r)) rows' rows.
+Proof. exact feat_roundtrip. Qed.
+Print Assumptions C14_same_keypoint_rows.
+
+(* ... and values with at most five decimals come back exactly *)
+Theorem C14_five_decimal_keypoints_exact : forall k : Z, round5 (inject_Z k / 100000) == inject_Z k / 100000.
+Proof. exact round5_exact. Qed.
+Print Assumptions C14_five_decimal_keypoints_exact.
+
+(* ... the error branch: keypoints with fewer than four columns (not SIFT-like: out of range) are refused on import *)
+Theorem C14_narrow_keypoints_refused : forall rows : kprows,
+  (exists r, In r rows /\ (List.length r < 4)%nat) -> import_feat (export_feat rows) = None.
+Proof. exact feat_narrow_refused. Qed.
+Print Assumptions C14_narrow_keypoints_refused.
+
+(* non-vacuity, with exact ties of the rounding (odd multiples of 1/64: round half even), a negative value, a
+   fifth column that is dropped, and a file of a single row *)
+Example C14_keypoint_rows_example :
+  feat_ok [[1 # 64; 3 # 64; -(1 # 64); 123456789 # 10000000; 99]] = true /\
+  match import_feat (export_feat [[1 # 64; 3 # 64; -(1 # 64); 123456789 # 10000000; 99]]) with
+  | Some rows' => rows_rel Qeq_bool rows' [[1562 # 100000; 4688 # 100000; -(1562 # 100000); 1234568 # 100000]] = true
+  | None => False
+  end.
+Proof. vm_compute. repeat split. Qed.
+
+(* the reader before the repair (fixes/C14-import-keypoints-single-or-no-row.patch) is refuted: an image with exactly
+   one keypoint, or with none, made import_openmvg raise (np.loadtxt returns a vector / an empty vector) *)
+Lemma C14_single_keypoint_legacy_refuted :
+  feat_ok [[1; 2; 3; 4]] = true /\ feat_ok [] = true /\
+  import_feat_legacy (export_feat [[1; 2; 3; 4]]) = None /\ import_feat_legacy (export_feat []) = None /\
+  import_feat (export_feat []) = Some [] /\
+  match import_feat (export_feat [[1; 2; 3; 4]]) with Some r => rows_rel Qeq_bool r [[1; 2; 3; 4]] = true | None => False end.
+Proof. vm_compute. repeat split. Qed.
+
 (* --- the pose arithmetic alone: centre = inverse(pose).t, t' = -R c gives t' == t (uses rot * rot^T == I) *)
 Theorem C14_centre_translation_inverse : forall p : pose, ~ n2 (pr p) == 0 ->
   centre p =v= pt (MPose.inverse p) /\
@@ -171,6 +211,25 @@ Example C14_example :
               /\ map (fun e => c_type (snd e)) (r_cams k) = [FULL_OPENCV; SIMPLE_PINHOLE]
   | None => False
   end.
+Proof. vm_compute. repeat split. Qed.
+
+(* --- both intrinsics layouts: what the importer reads back does not depend on the layout the exporter was asked to
+       write (v1 'value0' / v2 flat), and the exporter raises for one exactly when it raises for the other:
+       for EVERY dataset, in range or not *)
+Theorem C14_layout_independent : forall (fl : bool) (rb : string) (d : dataset),
+  match export (mkCfg fl true rb) d, export (mkCfg fl false rb) d with
+  | Some s2, Some s1 => import_core s2 = import_core s1
+  | None, None => True
+  | _, _ => False
+  end.
+Proof. exact import_core_layout. Qed.
+Print Assumptions C14_layout_independent.
+(* the two exports of the example do differ (the Brown camera is written in the other layout) *)
+Example C14_layouts_differ :
+  option_map (fun s => map (fun e => in_layout (snd e)) (s_intrinsics s)) (export (mkCfg true true "images") ex_data)
+    = Some [Flat; Flat] /\
+  option_map (fun s => map (fun e => in_layout (snd e)) (s_intrinsics s)) (export (mkCfg true false "images") ex_data)
+    = Some [Value0; Flat].
 Proof. vm_compute. repeat split. Qed.
 
 (* --- flattened names that collide are out of range, and indeed two images would be merged *)
